@@ -867,6 +867,8 @@ func (p *parser) parse(g *grammar) (val any, err error) {
 	}
 
 	p.read() // advance to first rune
+	// a failure at the very first rune is reported at that rune's position
+	p.maxFailPos = p.pt.position
 	val, ok = p.parseRuleWrap(startRule)
 	if !ok {
 		if len(*p.errs) == 0 {
